@@ -95,9 +95,11 @@ def run(chk, facts):
         conds = [n for n in walk(ut["body"]) if n.get("k") == "if" and "is_superset_of" in src(n["c"])]
         if len(conds) != 1:
             raise AnchorError(f"unify_type: {len(conds)} conditions mention is_superset_of")
+        from .common import disjuncts
         c = src(strip(conds[0]["c"])).replace(" ", "")
-        want = "((l_ty.is_superset_of(r_ty,ctx,left.pos)?||(l_ty==&Name::any()))||(r_ty==&Name::any()))"
-        ok = c == want and "unify_link(" in src(conds[0]["then"]) and "Err(" in src(conds[0]["else"])
+        # the three alternatives, in any order
+        ok = disjuncts(conds[0]["c"]) == sorted(["l_ty.is_superset_of(r_ty,ctx,left.pos)?", "l_ty==&Name::any()", "r_ty==&Name::any()"]) \
+            and "unify_link(" in src(conds[0]["then"]) and "Err(" in src(conds[0]["else"])
         chk.ob("R-C06-2", "unify_type:accept-condition", ok,
                "two types unify iff the parent accepts the child (Name::is_superset_of) or one side is Any" if ok else
                f"unify_type accepts two types under `{c[:140]}`: the comparison of declared and actual type is bypassed or reversed", loc)
